@@ -80,6 +80,11 @@ def evalOpHostile : Sx → Option String
     match Msgpack.dec 100000 b with
     | some (v, _) => some s!"depth:{vDepth v}"
     | none => some "depth:undecodable"
+  | .list [.atom "hostile.rep.builtin", _, _, _, _, _] =>
+    -- consistent hostile constructions built by the harness itself (self-referencing discharges): the model's
+    -- verification is total and never gives a discharge's own third-party caveats any discharges
+    -- (`nested_3p_never_discharged`, C04), so it ends; no accept/refuse verdict is compared
+    some ("?" ++ hostileTail ++ " child:ok")
   | .list [.atom "hostile.rep.cavs", p, u, n, s, _] => do
     let b := repBytes (← p.bytes?) (← u.bytes?) (← n.nat?) (← s.bytes?)
     some (okErr (decodeCavsTop defaultFuel b) ++ hostileTail ++ " child:ok")
